@@ -17,9 +17,28 @@ def _isbv(*xs):
     return any(isinstance(x, z3.BitVecRef) for x in xs)
 
 
+_CTX = ["py", None]
+
+
+def set_ctx(mode, W=None):
+    """sort that bare python ints are lifted to when both branches of a symbolic ite are python ints"""
+    _CTX[0], _CTX[1] = mode, W
+
+
+def lift(v):
+    if isinstance(v, int) and not isinstance(v, bool):
+        if _CTX[0] == "bv":
+            return z3.BitVecVal(v, _CTX[1])
+        if _CTX[0] == "int":
+            return z3.IntVal(v)
+    return v
+
+
 def ite(c, a, b):
     if isinstance(c, bool):
         return a if c else b
+    if isinstance(a, int) and isinstance(b, int) and not isinstance(a, bool) and not isinstance(b, bool):
+        a, b = lift(a), lift(b)
     if isinstance(c, z3.BoolRef) and z3.is_true(c):
         return a
     if isinstance(c, z3.BoolRef) and z3.is_false(c):
